@@ -261,6 +261,29 @@ def search(res, tier, seed, deep=False):
             res.witness(dict(component="utils._math_utils", statement="ecdf/iecdf/quantile-map law violated on the implementation: " + cls,
                              input=dict(x=[str(v) for v in xs], y=[str(v) for v in ys], dtype=(np.dtype(dtype).name if dtype is not None else "float64")), observed=det,
                              expected="range/monotonicity/end-point/rank laws of C16", **{"class": cls}))
+    # large samples (thousands of values, tie-free): end points, exactness at the sample points, rank transfer
+    for N in ([2500] if tier == "quick" else [2500, 5000, 12000]):
+        rs = np.random.RandomState(r.randint(0, 10 ** 6))
+        fx = np.unique(np.round(rs.normal(0, 100, N * 2) * 64) / 64)[:N]; rs.shuffle(fx)
+        fz = np.unique(np.round(rs.gamma(2.0, 30, N * 2) * 64) / 64)[:N]; rs.shuffle(fz)
+        res.case(("laws-large", N))
+        bad = []
+        e = m.ecdf(fx, fx, method="linear_interpolation"); want = np.argsort(np.argsort(fx)) / (N - 1)
+        if np.any(np.abs(e - want) > 1e-9): bad.append(("ecdf-linear-at-sample-points", dict(n=N, max_error=float(np.max(np.abs(e - want))))))
+        e = m.ecdf(fx, fx, method="step_function"); want = (np.argsort(np.argsort(fx)) + 1) / N
+        if np.any(np.abs(e - want) > 1e-9): bad.append(("ecdf-step-at-sample-points", dict(n=N)))
+        for im in IECDF:
+            q = m.iecdf(fx, np.array([0.0, 1.0]), method=im)
+            if q[0] != fx.min() or q[1] != fx.max(): bad.append(("iecdf-endpoints:" + im, dict(n=N)))
+        wantz = np.sort(fz)[np.argsort(np.argsort(fx))]
+        if not np.array_equal(m.quantile_map_non_parametically(fx, fz, fx), wantz): bad.append(("equal-size-rank-transfer", dict(n=N)))
+        mv = m.quantile_map_non_parametically(fx, fz, fx, ecdf_method="linear_interpolation", iecdf_method="linear")
+        if np.any(np.abs(mv - wantz) > 1e-9 * 1000): bad.append(("equal-size-rank-transfer:linear_interpolation/linear", dict(n=N, max_error=float(np.max(np.abs(mv - wantz))))))
+        for cls, det in bad:
+            if cls in seen: continue
+            seen.add(cls)
+            res.witness(dict(component="utils._math_utils", statement="ecdf/iecdf/quantile-map law violated on the implementation: " + cls,
+                             input=dict(kind="large-sample", n=N, seed=seed), observed=det, expected="range/monotonicity/end-point/rank laws of C16", **{"class": cls}))
     res.components["search"] = dict(samples=n, note="laws evaluated for all 3 ecdf x 9 iecdf methods per sample")
 
 def replay(w):
